@@ -35,8 +35,8 @@ K("c16_create_cursor_rest", "cg", ["C16"], tier="quick", timeout=600,
   desc="XGROUP CREATE at 0-0: cursor 0-0; second CREATE refused; SETID sets the cursor to any ID; DESTROY removes exactly that group",
   encodes=["ConsumerGroupManager::create_group", "get_group", "destroy_group", "group_count", "ConsumerGroup::new", "set_id", "get_last_id"],
   bounds="1 group; SETID argument full-width symbolic; unwind 5", stubs=NOW)
-K("c16_create_cursor_kf", "cg", ["C16"], tier="thorough", timeout=600, expect="hold",
-  desc="region: start position != 0-0 (XGROUP CREATE k g $ or an explicit ID): the new group's cursor must be the start position, ferrous always starts at 0-0 (the whole history is delivered)",
+K("c16_create_cursor_kf", "cg", ["C16"], tier="quick", timeout=600, expect="hold",
+  desc="XGROUP CREATE at ANY start position (symbolic): the cursor is the start position; then SETID to ANY id (also below the cursor) sets the cursor",
   encodes=["ConsumerGroupManager::create_group", "ConsumerGroup::new", "ConsumerGroup::get_last_id"], bounds="start full-width symbolic; unwind 5", stubs=NOW)
 
 RG = VEC + ["<StreamEntry as Clone>::clone -> exact clone for entries with an empty field map (shape asserted inside the stub)",
